@@ -51,10 +51,13 @@ def select(trace, tier, salt, kinds=EBP_KINDS, extra_repeats=12):
         return idx
     seen = set()
     first, rest = [], []
+    section = sections(trace)
     for e in trace:
         if e.get('kind') not in kinds:
             continue
-        k = point_key(e)
+        # the same helper (child_end, put, id ...) is called from different critical sections of the run
+        # loop: a landing point is "new" per (location, enclosing section), not per location alone
+        k = point_key(e) + (section.get(e['i']),)
         if k in seen:
             rest.append(e['i'])
         else:
@@ -103,3 +106,27 @@ def at_of(trace, k):
         if e['i'] == k:
             break
     return dict(kind=tgt['kind'], file=tgt['file'], func=tgt['func'], line=tgt['line'], x=tgt.get('x'), occ=occ)
+
+
+def sections(trace):
+    """index -> enclosing section of the run loop: 'send:<n>' inside the n-th _send_result (until control is
+    back in do_work; n capped at 2), 'cleanup' from the first _cleanup on, 'handler' inside logger.exception
+    of the run function's handler, else None."""
+    out = {}
+    inside = None
+    nsend = 0
+    for e in trace:
+        if 'i' not in e:
+            continue
+        f = e.get('func')
+        if f == '_send_result' and e.get('kind') == 'start':
+            nsend += 1
+            inside = 'send:%d' % min(nsend, 2)
+        elif f == '_cleanup' and e.get('kind') == 'start':
+            inside = 'cleanup'
+        elif f == 'exception' and e.get('kind') == 'start' and inside is None:
+            inside = 'handler'
+        elif inside and inside.startswith('send') and f == 'do_work':
+            inside = None
+        out[e['i']] = inside
+    return out
